@@ -6,14 +6,18 @@ from sfmon.findings import predicate
 def c11_empty_intersection_raises(w):
     """union=False and the inputs share no label on the aligned axis: the result should have a 0-length aligned axis, the call raises"""
     k = w['klass']
-    return w['what'] in ('valid_concat_raised', 'valid_overlay_raised') and k.get('union') is False and k.get('empty_intersection') is True
+    # from_concat was repaired (2b5fb55: shape_reference for a result without columns); what remains is Frame.from_overlay
+    return (w['what'] == 'valid_overlay_raised' and k.get('op') == 'frame_overlay' and k.get('union') is False
+            and k.get('empty_intersection') is True and k.get('exception') == 'ErrorInitTypeBlocks')
 
 
 @predicate
 def c11_zero_sized_input_raises(w):
     """an input without rows or without columns (or an empty Series in the items form)"""
     k = w['klass']
-    return w['what'] == 'valid_concat_raised' and k.get('zero_sized_input') is True
+    # from_concat was repaired (2b5fb55); what remains is the hierarchy of the items forms, built by IndexHierarchy.from_index_items
+    return (w['what'] == 'valid_concat_raised' and k.get('zero_sized_input') is True and str(k.get('op')).endswith('_concat_items')
+            and k.get('exception') == 'ErrorInitIndexLevel')
 
 
 @predicate
